@@ -10,17 +10,17 @@ import (
 
 // Config is the generated server configuration and cast of a script.
 type Config struct {
-	AllocLifetimeS int    `json:"alloc_lifetime_s"` // 0 = library default (10 min)
-	PermTimeoutS   int    `json:"perm_timeout_s"`   // 0 = default (5 min)
-	ChanTimeoutS   int    `json:"chan_timeout_s"`   // 0 = default (10 min)
-	InboundMTU     int    `json:"inbound_mtu"`      // 0 = default (1600)
-	Strict         bool   `json:"strict_family"`
-	Clients        []int  `json:"clients"`                // indices into the client address pool
-	Deny           []int  `json:"deny"`                   // peer-pool indices the permission handler refuses
-	DenyClient     int    `json:"deny_client"`            // -1: deny for everybody; else only for this client index
+	AllocLifetimeS int   `json:"alloc_lifetime_s"` // 0 = library default (10 min)
+	PermTimeoutS   int   `json:"perm_timeout_s"`   // 0 = default (5 min)
+	ChanTimeoutS   int   `json:"chan_timeout_s"`   // 0 = default (10 min)
+	InboundMTU     int   `json:"inbound_mtu"`      // 0 = default (1600)
+	Strict         bool  `json:"strict_family"`
+	Clients        []int `json:"clients"`     // indices into the client address pool
+	Deny           []int `json:"deny"`        // peer-pool indices the permission handler refuses
+	DenyClient     int   `json:"deny_client"` // -1: deny for everybody; else only for this client index
 	// DenyStream: peers that only the stream listener's permission handler refuses (the UDP
 	// listener of the same server admits them): each listener has its own policy
-	DenyStream []int `json:"deny_stream,omitempty"`
+	DenyStream     []int  `json:"deny_stream,omitempty"`
 	DenyAfterS     int    `json:"deny_after_s,omitempty"` // >0: the deny list only applies from this many seconds after start
 	NoAuth         bool   `json:"no_auth,omitempty"`      // no AuthHandler configured
 	Quota          int    `json:"quota,omitempty"`        // >0: at most this many allocations per user (QuotaHandler)
@@ -32,6 +32,12 @@ type Config struct {
 	DualStack      bool   `json:"dual_stack,omitempty"`           // the UDP listener is the dual-stack wildcard socket [::]:3478 and serves both families
 	ServerV6       bool   `json:"server_v6,omitempty"`            // the UDP listener is bound to an IPv6 address
 	Stream         []int  `json:"stream_clients,omitempty"`       // client indices that talk to the server over a TCP control connection
+	// EmptyUserID: the operator's AuthHandler returns "" as the user id for everybody (it does not
+	// use user ids): all authenticated users are then one owner as far as allocations go
+	EmptyUserID bool `json:"empty_user_id,omitempty"`
+	// ProbeChanDeleted: from inside OnChannelDeleted the bound peer sends one more datagram to the
+	// relayed address - the binding whose end is being announced must not carry it to the client
+	ProbeChanDeleted bool `json:"probe_chan_deleted,omitempty"`
 }
 
 // Step is one scripted action. Everything is symbolic (indices into pools) and resolved against
@@ -56,7 +62,7 @@ type Step struct {
 	Pad      string `json:"pad,omitempty"`     // ChannelData from client: "" padded, none
 	Stall    int    `json:"stall,omitempty"`   // PeerData: the (stream) client does not read for this many seconds while Burst datagrams arrive for it
 	Burst    int    `json:"burst,omitempty"`
-	Split    int    `json:"split,omitempty"` // Send / ChannelData from a stream client: the frame is written in two segments, cut at this offset
+	Split    int    `json:"split,omitempty"`     // Send / ChannelData from a stream client: the frame is written in two segments, cut at this offset
 	RespLost bool   `json:"resp_lost,omitempty"` // the listener socket fails to write the response (CreatePermission / ChannelBind)
 }
 
@@ -104,7 +110,7 @@ var (
 		{IP: net.ParseIP("fd00:2::1"), Port: 7000}, // IPv6 peer
 		{IP: net.IPv4(10, 2, 0, 4), Port: 9},
 		{IP: net.ParseIP("::ffff:10.2.0.2"), Port: 7000}, // IPv4-mapped form of peer 2's IP
-		{IP: net.ParseIP("fd00:2::2"), Port: 7001},       // second IPv6 peer
+		{IP: net.ParseIP("fd00:2::2"), Port: 7000},       // second IPv6 peer: other address, same port as peer 4
 		{IP: net.ParseIP("fd00:2::1"), Port: 7009},       // same IPv6 address as peer 4, other port
 	}
 
